@@ -563,6 +563,17 @@ def r03b_defeat_remaining(ctx):
                         ('the main loop can be left at line %d while seats and spare hopefuls remain' % bad_exits[0].lineno if bad_exits
                          else 'statements between the loop and the sweep change the counts'))
             ctx.check(ok, R, loop, f, what, how, how)
+            # a sweep that elects while seats remain and defeats the rest hands out seats in iteration (candidate-number) order: it may
+            # only run when there is nothing left to choose - every way out of the main loop entails "seats filled or hopefuls <= seats left"
+            ecalls = [c for c in attr_calls_in(loop, ('elect',))]
+            if ecalls and dcalls and loop.lineno > ri.main_loop().end_lineno:
+                exits = _exit_formulas(ctx, ri, atoms)
+                bad_exits = [x for x, phi in exits if not _entails_done(phi)]
+                ctx.check(not bad_exits, R, loop, f,
+                          'the closing elect-or-defeat sweep has no choice to make: the main loop ends only with the seats filled or no more hopefuls than open seats',
+                          'all %d way(s) out of the main loop entail "seats filled or hopefuls <= seats left"' % len(exits),
+                          'the main loop can be left (line %s) while seats are open and more hopefuls than seats remain: the closing sweep then gives the '
+                          'seats to the lowest-numbered hopefuls, without tally or tie-break' % (bad_exits[0].lineno if bad_exits else '?'))
     ctx.floor(R, 'defeat-remaining sweeps', n, 8)
 
 
